@@ -75,6 +75,9 @@ def draw_scenario(cs, cfg):
         sc["composite"] = cs.weighted([3, 1, 1, 1], "composite")   # 0 plain, 1 A+B, 2 scalar*A, 3 A.matmul(B)
         sc["n"] = max(sc["n"], 2)
         sc["fkind"] = "linop"
+    # a jac operator of one of the object's methods, kept by the caller: itself an EditableModule whose products can
+    # be handed to functionals as the user's function
+    sc["with_jop"] = sc["family"] == 0 and cs.bool("with_jop", 1, 5)
     sc["rgW"] = not cs.bool("W_nograd", 1, 5)
     sc["rgb"] = not cs.bool("b_nograd", 1, 5)
     sc["rgs"] = cs.bool("s_grad", 1, 2)
@@ -138,9 +141,13 @@ def draw_functional(cs, sc):
             spec["neig"] = cs.randint(1, 2, "neig")
             spec["M"] = cs.bool("withM", 1, 3)
         return spec
-    F = ["rootfinder", "equilibrium", "minimize", "solve_ivp", "quad", "mcquad", "jac", "hess", "reentrant"][
-        cs.weighted([4, 3, 3, 4, 3, 3, 3, 2, 2], "F")]
+    F = ["rootfinder", "equilibrium", "minimize", "solve_ivp", "quad", "mcquad", "jac", "hess", "reentrant", "jop_root"][
+        cs.weighted([4, 3, 3, 4, 3, 3, 3, 2, 2, 3 if sc.get("with_jop") else 0], "F")]
     spec = {"F": F}
+    if F == "jop_root":
+        spec["method"] = cs.choice(["broyden1", "linearmixing"], "m")
+        spec["knobs"] = {}
+        return spec
     if F in ("rootfinder", "reentrant"):
         spec["method"] = cs.choice(["broyden1", "broyden2", "linearmixing", "newton"], "m")
         spec["bck"] = cs.choice([None, "cg", "exactsolve", "bicgstab"], "bck")
@@ -271,6 +278,13 @@ def build_env(sc):
             env.leaf_extra += [W3, b3]
     env.s = torch.tensor(0.7, dtype=AC.DT).requires_grad_(sc["rgs"])
     env.s2 = torch.tensor(0.9, dtype=AC.DT).requires_grad_(sc["rgs"])
+    if sc.get("with_jop"):
+        from xitorch import grad as _xg
+        with warnings.catch_warnings():
+            warnings.simplefilter("ignore")
+            yv = vals["y0"].clone().requires_grad_()
+            env.jop = _xg.jac(env.actors[0].f_jac, params=(yv, env.s), idxs=0)
+        env.actors.append(env.jop)
     env.y0 = vals["y0"].clone()
     env.pfs = {}
     env.proxies = {}
@@ -359,7 +373,7 @@ def multi_ok(spec):
 
 def method_name_of(spec):
     F = spec["F"]
-    return {"rootfinder": "f_root", "reentrant": "f_reent", "equilibrium": "f_equil", "minimize": "f_min",
+    return {"rootfinder": "f_root", "reentrant": "f_reent", "equilibrium": "f_equil", "minimize": "f_min", "jop_root": "f_jac",
             "solve_ivp": "f_ode_tuple" if spec.get("tuple") else "f_ode", "quad": "f_quad", "mcquad": "f_mc",
             "jac": "f_jac", "hess": "f_hess"}[F]
 
@@ -437,6 +451,10 @@ def run_functional(env, spec):
         else:
             x0 = env.y0[:1]
             y = xi.mcquad(f, lp, x0, fparams=(s,), pparams=(env.s2,), method=m, nsamples=5, lb=-2.0, ub=2.0)
+        return (y * wts).sum()
+    if F == "jop_root":
+        # the user's function is a product of a jac operator (a bound method of an EditableModule)
+        y = xo.rootfinder(env.jop.mv, env.y0, params=(), method=spec["method"], maxiter=6)
         return (y * wts).sum()
     if F in ("jac", "hess"):
         kept = getattr(env, "kept_op", None) if spec.get("keep_op") else None
